@@ -506,14 +506,14 @@ theorem entry_meets_spec (env : Env) (tbl : Table) (c : Int) (j : Json) (htbl : 
         cases h1 : stringField (member kvs "jsonrpc") <;> cases h2 : stringField (member kvs "method") <;>
           simp [h1, h2] at hr
         subst hr; exact ⟨rfl, rfl⟩
-      have hidok : InvalidIdOk (.obj kvs) (idJson req.id) := by
+      have hidok : InvalidIdOk (.obj kvs) (echoId junoCfg req.id) := by
         rw [(hreqid req hd).1]
         cases hmi : member kvs "id" with
         | none => exact Or.inl rfl
         | some v =>
           rcases hidsc v hmi with ⟨s, rfl⟩ | ⟨t, rfl⟩ | rfl
-          · exact Or.inr ⟨kvs, rfl, by simp [hmi, storeAny, canon, idJson]⟩
-          · exact Or.inr ⟨kvs, rfl, by simp [hmi, storeAny, canon, idJson]⟩
+          · exact Or.inr ⟨kvs, rfl, by simp [hmi, storeAny, canon, echoId, junoCfg]⟩
+          · exact Or.inr ⟨kvs, rfl, by simp [hmi, storeAny, canon, echoId, junoCfg]⟩
           · exact Or.inl rfl
       cases hs : isSane req with
       | some e =>
@@ -690,7 +690,7 @@ theorem responseLost_false {env : Env} (h : HandlersOk env) (tbl : Table) (j : J
     simp [h1, h2]
 
 /-- with well-behaved handlers `handleInputF` is `handleInput` -/
-theorem handleInputF_ok (cfg : Config) (env : Env) (tbl : Table) (inp : Input) (h : HandlersOk env)
+theorem handleInputF_ok_asis (cfg : Config) (env : Env) (tbl : Table) (inp : Input) (h : HandlersOk env)
     (hc : cfg.internalErrorOnHandlerFailure = false) :
     handleInputF cfg env tbl inp =
       { body := (handleInput cfg env tbl inp).body, log := (handleInput cfg env tbl inp).log } := by
@@ -723,6 +723,23 @@ theorem handleInputF_ok (cfg : Config) (env : Env) (tbl : Table) (inp : Input) (
     cases hp : inp.parsed with
     | none => rfl
     | some j => simp [(responseLost_false h tbl j).1, (responseLost_false h tbl j).2]
+
+theorem sanitize_id {env : Env} (h : HandlersOk env) : env.sanitize = env := by
+  cases env with
+  | mk decode zero call nng =>
+    simp only [Env.sanitize, Env.mk.injEq, true_and, and_true]
+    funext n a
+    have := h n a
+    simp only at this
+    simp [this]
+
+/-- with well-behaved handlers `handleInputF` is `handleInput`, whether or not failures would be answered -/
+theorem handleInputF_ok (cfg : Config) (env : Env) (tbl : Table) (inp : Input) (h : HandlersOk env) :
+    handleInputF cfg env tbl inp =
+      { body := (handleInput cfg env tbl inp).body, log := (handleInput cfg env tbl inp).log } := by
+  cases hc : cfg.internalErrorOnHandlerFailure with
+  | false => exact handleInputF_ok_asis cfg env tbl inp h hc
+  | true => simp [handleInputF, hc, sanitize_id h]
 
 theorem sanitize_ok (env : Env) : HandlersOk env.sanitize := by
   intro n a
@@ -797,7 +814,7 @@ theorem input_meets_spec (env : Env) (tbl : Table) (inp : Input) (es : List Json
     (handleInputF junoCfg env tbl inp).log =
       es.flatMap (fun e => (handleEntry junoCfg env tbl (inp.decodeFailCode junoCfg) e).2) ∧
     (handleInputF junoCfg env tbl inp).goError = false ∧ (handleInputF junoCfg env tbl inp).panicked = false := by
-  rw [handleInputF_ok junoCfg env tbl inp hok rfl]
+  rw [handleInputF_ok junoCfg env tbl inp hok]
   have hmeets : ∀ e ∈ es, MeetsSpec junoCfg env tbl e (handleEntry junoCfg env tbl (inp.decodeFailCode junoCfg) e) := by
     intro e he
     obtain ⟨hpl, hd, hsingle⟩ := hj e he
@@ -848,7 +865,7 @@ theorem silent_iff_spec (env : Env) (tbl : Table) (inp : Input) (htbl : TableOk 
   cases hes : inp.entries junoCfg with
   | none =>
     obtain ⟨code, j, _, hout, _⟩ := handleInput_refused junoCfg env tbl inp hes
-    rw [handleInputF_ok junoCfg env tbl inp hok rfl, hout]
+    rw [handleInputF_ok junoCfg env tbl inp hok, hout]
     simp
   | some es =>
     obtain ⟨hm, hbody, _⟩ := input_meets_spec env tbl inp es hes htbl hok (hj es hes)
@@ -894,43 +911,38 @@ theorem stage_id_legal_repaired (cfg : Config) (hc : cfg.legalIdEchoOnly = true)
         | error e => exact sane_legal req hs
         | ok args => exact sane_legal req hs
 
-theorem response_id_legal_plain (env : Env) (tbl : Table) (c : Int) (kvs : List (String × Json))
-    (hp : PlainMembers kvs) (hid : IdScalarOrAbsent kvs) (r : Response)
-    (h : (handleEntry junoCfg env tbl c (.obj kvs)).1 = some r) : LegalId r.id := by
-  rw [handleEntry_eq] at h
-  rw [entrySpec_id junoCfg env c _ r h]
-  -- the decoded id is the scalar id member, or nil
-  have hreq : ∀ req, decodeRequest (.obj kvs) = some req → LegalId (idJson req.id) := by
-    intro req hr
-    rw [decodeRequest_plain kvs hp] at hr
-    cases h1 : stringField (member kvs "jsonrpc") <;> cases h2 : stringField (member kvs "method") <;>
-      simp [h1, h2] at hr
-    subst hr
-    simp only
-    cases hmi : member kvs "id" with
-    | none => simp [idJson, LegalId]
-    | some v =>
-      rcases hid v hmi with ⟨s, rfl⟩ | ⟨t, rfl⟩ | rfl <;> simp [storeAny, canon, idJson, LegalId]
-  unfold stageOf
-  cases hd : decodeRequest (.obj kvs) with
-  | none => simp [Stage.id, LegalId]
-  | some req =>
-    have hl := hreq req hd
-    simp only
-    cases hs : isSane req with
-    | some e =>
-      simp only [Stage.id, echoId, junoCfg]
-      by_cases he : e = .id
-      · simp [he, LegalId]
-      · simpa [he] using hl
-    | none =>
-      simp only
-      cases lookupMethod tbl req.method with
-      | none => exact hl
-      | some m =>
-        simp only
-        cases buildArguments env req.params m with
-        | error e => exact hl
-        | ok args => exact hl
+/-! ### the current server: failing handlers are answered (6442b48) -/
+
+theorem handleInputF_sanitize (env : Env) (tbl : Table) (inp : Input) :
+    handleInputF junoCfg env tbl inp = handleInputF junoCfg env.sanitize tbl inp := by
+  rw [handleInputF_ok junoCfg env.sanitize tbl inp (sanitize_ok env)]
+  simp [handleInputF, junoCfg]
+
+theorem input_meets_spec_all (env : Env) (tbl : Table) (inp : Input) (es : List Json)
+    (hes : inp.entries junoCfg = some es) (htbl : TableOk tbl)
+    (hj : ∀ e ∈ es, Judged (!(inp.batch? junoCfg).isSome) e) :
+    (∀ e ∈ es, MeetsSpec junoCfg env.sanitize tbl e (handleEntry junoCfg env.sanitize tbl (inp.decodeFailCode junoCfg) e)) ∧
+    (handleInputF junoCfg env tbl inp).body =
+      assemble (inp.batch? junoCfg).isSome
+        ((es.filterMap (fun e => (handleEntry junoCfg env.sanitize tbl (inp.decodeFailCode junoCfg) e).1)).map Response.toJson) ∧
+    (handleInputF junoCfg env tbl inp).log =
+      es.flatMap (fun e => (handleEntry junoCfg env.sanitize tbl (inp.decodeFailCode junoCfg) e).2) ∧
+    (handleInputF junoCfg env tbl inp).goError = false ∧ (handleInputF junoCfg env tbl inp).panicked = false := by
+  rw [handleInputF_sanitize]
+  exact input_meets_spec env.sanitize tbl inp es hes htbl (sanitize_ok env) hj
+
+theorem silent_iff_spec_all (env : Env) (tbl : Table) (inp : Input) (htbl : TableOk tbl)
+    (hj : ∀ es, inp.entries junoCfg = some es → ∀ e ∈ es, Judged (!(inp.batch? junoCfg).isSome) e) :
+    (handleInputF junoCfg env tbl inp).body = none ↔
+      ∃ es, inp.entries junoCfg = some es ∧ ∀ e ∈ es, (specKind e).isNotification = true := by
+  rw [handleInputF_sanitize]
+  exact silent_iff_spec env.sanitize tbl inp htbl (sanitize_ok env) hj
+
+/-- what the caller of a failing handler gets: -32603 Internal error with the request's id -/
+theorem failing_handler_answer (cfg : Config) (env : Env) (n : String) (a : List Json) (id : Json)
+    (h : (env.call n a).faulty = true) :
+    IsErrorResponse (-32603) id (handlerResponse cfg (env.sanitize.call n a) id).toJson := by
+  simp only [Env.sanitize, h, if_true, handlerResponse]
+  exact ⟨"Internal error", some opaqueData, by simp [toJson_error, mkErr, InternalError, InvalidJSON, InvalidRequest, MethodNotFound, InvalidParams]⟩
 
 end Juno.C11
